@@ -23,6 +23,11 @@ ASSUMPTIONS = [
     "spans_intercept) and on the design matrix columns / term labels, which are checked to agree",
     "C13 quantifies over `levels=` that are arrangements of the observed levels; a listed level "
     "that does not occur in the rows (D13) is compared with the model only (it belongs to C06)",
+    "prediction path: the rows evaluate_new_data returns are judged by Spec.C13.rowsFollowLevels "
+    "against the levels and contrast matrix the factor remembered (which the training-time "
+    "specification has judged); a refusal on a column in which every level occurs is a failure, a "
+    "refusal on a column lacking a level (explicit levels= / ordered categoricals: D13) is counted "
+    "only (it belongs to C06); cases outside the scope of the statement are not predicted",
     "interchange: that equal factor spaces give equal column spaces of the design is the "
     "tensor-product argument of DESIGN.md (trusted mathematics); it is *tested* here by exact "
     "rational Gaussian elimination on complete-factorial data, on formulas whose terms need one "
@@ -288,11 +293,52 @@ def impl_design(case):
         consistent = (value == comp_value
                       and list(term.labels) == ["%s[%s]" % (name, l) for l in labels]
                       and (not case["intercept"] or bool((np.asarray(dm.common.design_matrix)[:, 0] == 1).all())))
-        return {"levels": [str(_plain(l)) for l in comp.levels], "matrix": matrix, "labels": labels,
-                "value": value, "spans": bool(comp.spans_intercept), "consistent": bool(consistent),
-                "name": name}
+        out = {"levels": [str(_plain(l)) for l in comp.levels], "matrix": matrix, "labels": labels,
+               "value": value, "spans": bool(comp.spans_intercept), "consistent": bool(consistent),
+               "name": name}
     except Exception as e:  # noqa
         return {"err": "Observer:" + type(e).__name__}
+    # prediction path: the same factor evaluated on new columns through evaluate_new_data
+    out["new"] = []
+    for nf in case.get("new", []):
+        ncol = dict(col, values=nf["values"])
+        ndf = pd.DataFrame({"g": make_column(ncol)})
+        try:
+            new = _quiet(lambda: dm.common.evaluate_new_data(ndf))
+            full = np.asarray(new.design_matrix)
+            v = _int_matrix(full[:, dm.common.slices[name]])
+            if v is None or full.shape[0] != len(ndf):
+                out["new"].append({"err": "NonIntegralMatrix"})
+            else:
+                out["new"].append({"value": v, "intercept_ok": bool(
+                    not case["intercept"] or (full[:, 0] == 1).all())})
+        except Exception as e:  # noqa
+            out["new"].append({"err": type(e).__name__})
+    return out
+
+
+def add_new_columns(case, rng):
+    """columns for the prediction stage of a design case (stored in the case, so that a replay
+    needs nothing else): the training column itself, a longer rearrangement in which every level
+    occurs (other row count, other first-seen order, repeated rows), and a column from which all
+    rows of one level were removed"""
+    vals = list(case["col"]["values"])
+    if not vals:
+        case["new"] = []
+        return
+    distinct = []
+    for v in vals:
+        if v not in distinct:
+            distinct.append(v)
+    allv = list(vals) + [rng.choice(vals) for _ in range(rng.randrange(0, 4))]
+    rng.shuffle(allv)
+    news = [{"frame": "same", "values": vals, "all_levels": True},
+            {"frame": "rearranged", "values": allv, "all_levels": True}]
+    if len(distinct) >= 2:
+        gone = rng.choice(distinct)
+        rest = [v for v in allv if v != gone]
+        news.append({"frame": "level_missing", "values": rest, "all_levels": False})
+    case["new"] = news
 
 
 def req_design(case, impl):
@@ -662,7 +708,10 @@ def explore(tier, seed, res=None, replay=None):
     res.rule = ("code: Treatment/Sum(arg).code_with/without_intercept(levels) for every n and every "
                 "arg; design: one factor in one spelling (g, C, T, S, nested C, T/S over C; contrast "
                 "none/class/instance; levels none/arrangement/defective; string, integer, Categorical, "
-                "ordered Categorical columns) through design_matrices; interchange: a design with "
+                "ordered Categorical columns) through design_matrices, then the prediction path: "
+                "common.evaluate_new_data on the training column, on a longer rearrangement containing "
+                "every level and on a column lacking one level, each row judged to be the contrast row "
+                "of its level; interchange: a design with "
                 "every factor recoded. Non-trivial = at least two levels and the implementation "
                 "evaluated; distinct by (kind, coding, levels, argument, mode)")
     if replay is not None:
@@ -680,6 +729,9 @@ def explore(tier, seed, res=None, replay=None):
         res.exhaustive = True
     for g in groups:
         design_cases.extend(g)
+    for i, c in enumerate(design_cases):
+        if "new" not in c:
+            add_new_columns(c, rng_for(seed, "c13", "new", i))
 
     # ---------------- code ----------------
     impl = [impl_code(c) for c in code_cases]
@@ -755,6 +807,50 @@ def explore(tier, seed, res=None, replay=None):
                                 "impl": {k: io_[k] for k in ("levels", "matrix", "labels")}})
         if "alias_group" in c:
             by_group.setdefault(c["alias_group"], []).append((c, io_))
+    # ---------------- design, prediction path ----------------
+    # the codings built above, evaluated on new columns: row by row the contrast row of the row's
+    # level (Spec.C13.rowsFollowLevels, the predicate used for the training rows), with the levels
+    # and the contrast matrix the factor remembered
+    reqs, owners = [], []
+    for c, io_, an in zip(design_cases, impl, answers):
+        if "err" in io_ or not an["in_scope"]:
+            continue
+        for nf, ob in zip(c.get("new", []), io_.get("new", [])):
+            res.evaluations += 1
+            tag = "all_levels" if nf["all_levels"] else "level_missing"
+            small = dict({k: v for k, v in c.items() if k != "alias_group"}, new=[nf], stage="predict")
+            if "err" in ob:
+                res.count("predict:%s:refused:%s" % (tag, ob["err"]))
+                if nf["all_levels"]:
+                    res.failures.append({"case": small, "impl": ob,
+                                         "expected": "evaluated (every level occurs; the same levels were accepted at training)",
+                                         "why": "evaluate_new_data refuses a column in which every level occurs: "
+                                                + design_formula(c)[0], "finding": None})
+                continue
+            res.count("predict:%s:evaluated" % tag)
+            res.count("predict:col:" + c["col"]["type"])
+            if not ob["intercept_ok"]:
+                res.failures.append({"case": small, "impl": ob, "expected": "constant column of ones",
+                                     "why": "intercept column of the new matrix is not 1", "finding": None})
+            reqs.append({"op": "c13_rows", "levels": io_["levels"], "matrix": io_["matrix"],
+                         "data": sl_([_plain(v) for v in nf["values"]]), "value": ob["value"]})
+            owners.append((small, io_, ob))
+    for (small, io_, ob), an in zip(owners, ask(reqs) if reqs else []):
+        res.traces += 1
+        if not an["rows"]:
+            res.failures.append({
+                "case": small,
+                "impl": {"levels": io_["levels"], "contrast_matrix": io_["matrix"], "labels": io_["labels"],
+                         "new_rows": ob["value"]},
+                "expected": "row t of the evaluate_new_data matrix = contrast row of the level of row t",
+                "why": "prediction: rows of %s on the new column %s are not the contrast rows of their "
+                       "levels (levels %s)" % (design_formula(small)[0], small["new"][0]["values"],
+                                               io_["levels"]),
+                "finding": None})
+        elif len(io_["levels"]) >= 2:
+            res.nontrivial.add(("predict", json.dumps(spelling_json(small["spelling"]), sort_keys=True),
+                                tuple(io_["levels"]), small["col"]["type"], small["intercept"],
+                                small["new"][0]["frame"]))
     for gid, members in by_group.items():
         res.evaluations += 1
         res.count("kind:alias_group")
